@@ -9,7 +9,7 @@ OPS = ["get", "multiget", "getnext", "multigetnext", "set", "multiset", "bulkget
 SINGLE = ("get", "getnext", "set")
 BASE = dict(Insts=("<-", "InstsV"), ReqOids=("<-", "ReqV"), MaxLen=2, Versions=("<-", "AllV"), OpsSet=("<-", "AllOps"),
             Perturbs=("<-", "PertData"), ErrStatuses="{0}", MaxTicks=0, PinSecondRead=False, PinErrIndex=False, PinGetNextEnd=False,
-            PinErrBeforeId=False, IdErrStatuses="{0}")
+            PinErrBeforeId=False, PinV1ErrBeforeCommunity=False, IdErrStatuses="{0}")
 INV_C04 = ["ExactAnswers", "CountMismatchRefused", "OversizeRefused", "SetReturnsConfirmed", "BulkFaithful", "NoNonSnmpException", "Soundness"]
 INV_C07 = ["Soundness", "Completeness", "Rejects", "WalkEndSound", "CommunityVersionRefused"]
 INV_C08 = ["ErrorSurfaces", "NoNonSnmpException"]
